@@ -92,7 +92,8 @@ class Config(dict):
                     admins=(ADMIN,), project_leaders=(),
                     pr_author_options=None, send_bot_status=False,
                     max_commit_diff=0, jira=False, cred=False,
-                    password=None, log_level=None, clock=False)
+                    password=None, log_level=None, clock=False,
+                    cred_flavour='github')
 
     def __init__(self, **kw):
         d = dict(self.DEFAULTS)
@@ -198,9 +199,7 @@ class World:
         self.log_records = None
         self._setup_logging(config.log_level)
         if config.cred:
-            from urllib.parse import quote_plus
-            self.cred_url = 'https://%s:%s@git.invalid/%s/%s.git' % (
-                ROBOT, quote_plus(self.password), OWNER, SLUG)
+            self.cred_url = self._real_git_url(config.cred_flavour)
             subprocess.run(['git', 'config', '--global',
                             'url.%s.insteadOf' % self.remote, self.cred_url],
                            check=True)
@@ -209,6 +208,24 @@ class World:
         self._setup_host()
         self._wrap_host()
         self._patch()
+
+    def _real_git_url(self, flavour):
+        """The clone URL exactly as the real host client builds it (so that
+        a change of its quoting is seen by the masking check)."""
+        from types import SimpleNamespace
+        if flavour == 'github':
+            from bert_e.git_host import github
+            repo = github.Repository(
+                client=SimpleNamespace(login=ROBOT, password=self.password),
+                _validate=False, name=SLUG, full_name='%s/%s' % (OWNER, SLUG),
+                owner={'id': 1, 'login': OWNER})
+            return repo.git_url
+        from bert_e.git_host import bitbucket
+        repo = bitbucket.Repository(
+            SimpleNamespace(auth=SimpleNamespace(username=ROBOT,
+                                                 password=self.password)),
+            owner=OWNER, repo_slug=SLUG)
+        return repo.git_url
 
     def _setup_logging(self, level):
         import logging
